@@ -21,9 +21,11 @@ LEVEL_TEXT = (
     "right-handed), volumes, integration elements, diameters, centroids, Jacobians and inverse-transposed Jacobians."
 )
 LEVEL_NOTE = (
-    "Out of reach statically: uniqueness/completeness of the edge enumeration and of the neighbour tables for "
-    "arbitrary triangle soups (data-dependent sparse-matrix products), grid_from_segments, floating-point rounding "
-    "of the geometry."
+    "Edge uniqueness is decided through the shape of the enumeration (dictionary memo keyed by the sorted vertex "
+    "pair) and segment extraction through the provenance of the three arrays handed to Grid.  Out of reach "
+    "statically: the neighbour tables built from data-dependent sparse-matrix products and sorted fans "
+    "(_compute_vertex_neighbors, _compute_edge_neighbors, enumerate_vertex_adjacent_elements) as values for arbitrary "
+    "triangle soups; floating-point rounding of the geometry."
 )
 EXPLANATION = ("pattern tables extracted from Grid.refine, _create_barycentric_connectivity_array, union, _find_*_adjacency, _element_filter, _compute_boundary_information and the "
                "edge-length copies; _compute_geometric_quantities interpreted on per-element symbolic rows (sa/geomq.py)")
@@ -127,6 +129,9 @@ def run(ctx):
     edge_convention(ctx)
     # (f) geometric quantities against their definitions, for a general triangle
     geometry(ctx)
+    # (g) edge enumeration memo, segment extraction
+    edge_enumeration(ctx)
+    segments_grid(ctx)
 
 
 def _single(lst, what):
@@ -446,3 +451,82 @@ def geometry(ctx):
     # embedded positive: a left-handed normal must be rejected
     bad = [V.const(0) - x for x in want["_normals"]]
     r.must_fire(not all(x.eq(y) for x, y in zip(bad, want["_normals"])), "normal with the opposite orientation")
+
+
+def edge_enumeration(ctx):
+    """_numba_enumerate_edges: dictionary memo over the sorted vertex pair of every (element, local edge)."""
+    m = ctx.repo.mod(GRID)
+    fn = m.fn("_numba_enumerate_edges")
+    r = ctx.rule("EDGE-ENUM", "edges are enumerated through a dictionary keyed by the sorted vertex pair: a new key gets the next number and is appended once, a known key reuses its number; every (local edge, element) slot is filled", 1)
+    defs = roles.Defs(fn)
+    pa = arg_names(fn)
+    S = roles.stores(fn.body, defs, lv=False)
+    ok, why = False, "structure not recognised"
+    rets = [s for s in S if s.op == "return" and isinstance(s.vnode, ast.Tuple) and len(s.vnode.elts) == 2]
+    fills = [s for s in S if s.op == "=" and isinstance(s.tnode, ast.Subscript) and len(s.loops) == 2 and not s.guards]
+    if len(rets) == 1 and len(fills) == 1 and isinstance(rets[0].vnode.elts[1], ast.Name) and unparse(fills[0].tnode.value) == rets[0].vnode.elts[1].id:
+        f = fills[0]
+        lE, lL = f.loops
+        EE = rets[0].vnode.elts[1].id
+        if isinstance(lE.target, ast.Name) and isinstance(lL.target, ast.Name) and isinstance(f.vnode, ast.Name):
+            Ei, Li, IDX = lE.target.id, lL.target.id, f.vnode.id
+            ex = lambda src, line, **kw: roles.expect(src, defs, line, lv=False, E=pa[0], D=pa[1], I=Ei, L=Li, **kw)
+            key = "_vertices_from_edge_index(E[:, I], L)"
+            full = roles.canon(lE.iter, defs).replace(" ", "") == ex("range(E.shape[1])", lE.lineno) and roles.canon(lL.iter, defs) == "range(3)"
+            slot = f.target == ex("A[L, I]", f.node.lineno, A=EE)
+            test_new = (ex("(%s) not in D" % key, f.node.lineno), True)
+            test_old = (ex("(%s) not in D" % key, f.node.lineno), False)
+            alt_new = (ex("(%s) in D" % key, f.node.lineno), False)
+            alt_old = (ex("(%s) in D" % key, f.node.lineno), True)
+            idx_defs = [s for s in S if s.op == "=" and isinstance(s.tnode, ast.Name) and s.tnode.id == IDX and s.loops == (lE, lL)]
+            new = [s for s in idx_defs if s.guards in ((test_new,), (alt_new,))]
+            old = [s for s in idx_defs if s.guards in ((test_old,), (alt_old,))]
+            cnt = [s for s in S if s.op == "Add=" and isinstance(s.tnode, ast.Name) and s.loops == (lE, lL) and s.value == "1" and s.guards in ((test_new,), (alt_new,))]
+            okn = len(new) == 1 and len(cnt) == 1 and new[0].value == cnt[0].target and new[0].node.lineno < cnt[0].node.lineno
+            reg = [s for s in S if s.op == "=" and isinstance(s.tnode, ast.Subscript) and s.target == ex("D[%s]" % key, s.node.lineno) and s.guards in ((test_new,), (alt_new,))
+                   and isinstance(s.vnode, ast.Name) and (s.vnode.id == IDX or (bool(cnt) and s.vnode.id == cnt[0].target and s.node.lineno < cnt[0].node.lineno))]
+            app = [s for s in S if s.op == "call" and isinstance(s.vnode.func, ast.Attribute) and s.vnode.func.attr == "append" and s.guards in ((test_new,), (alt_new,))
+                   and roles.canon(s.vnode.args[0], defs).replace(" ", "") == ex(key, s.node.lineno)]
+            oko = len(old) == 1 and old[0].value == ex("D[%s]" % key, old[0].node.lineno)
+            init0 = okn and any(isinstance(st, ast.Assign) and unparse(st.targets[0]) == cnt[0].target and isinstance(st.value, ast.Constant) and st.value.value == 0 and st.lineno < lE.lineno for st in fn.body)
+            edges_ret = len(app) == 1 and isinstance(app[0].vnode.func.value, ast.Name) and roles.canon(rets[0].vnode.elts[0], defs).replace(" ", "") == ex("_np.array(X).T", rets[0].node.lineno, X=app[0].vnode.func.value.id)
+            ok = full and slot and okn and len(reg) == 1 and len(app) == 1 and oko and init0 and edges_ret and len(idx_defs) == 2
+            why = ("loops over all (element, local edge): %s; slot element_edges[local, element]: %s; new key -> next number then counter += 1: %s; new key registered in the dictionary: %s; "
+                   "appended to the edge list once: %s; known key reuses its number: %s; counter starts at 0: %s; edges returned as array(list).T: %s" % (full, slot, okn, len(reg) == 1, len(app) == 1, oko, init0, edges_ret))
+    r.check(ok, "_numba_enumerate_edges", GRID, fn.name, fn.lineno, "edge enumeration memo", why)
+
+
+def segments_grid(ctx):
+    """grid_from_segments keeps exactly the elements whose domain index is selected, with their vertex order, domain indices and coordinates."""
+    m = ctx.repo.mod(GRID)
+    fn = m.fn("grid_from_segments")
+    r = ctx.rule("SEGMENT-GRID", "grid_from_segments: elements with domain index in `segments`, vertex rows renumbered consistently (orientation kept), domain indices and coordinates carried over", 1)
+    defs = roles.Defs(fn)
+    pa = arg_names(fn)
+    S = roles.stores(fn.body, defs, lv=False)
+    rets = [s for s in S if s.op == "return"]
+    ok, why = False, "structure not recognised"
+    if len(rets) == 1 and isinstance(rets[0].vnode, ast.Call) and unparse(rets[0].vnode.func) == "Grid" and len(rets[0].vnode.args) == 3:
+        ln = rets[0].node.lineno
+        # the element mask
+        marks = [s for s in S if s.op == "=" and isinstance(s.tnode, ast.Subscript) and s.value == "True" and len(s.loops) == 1 and len(s.guards) == 1]
+        if len(marks) == 1 and isinstance(marks[0].loops[0].target, ast.Name) and isinstance(marks[0].tnode.value, ast.Name):
+            MASK, Ei = marks[0].tnode.value.id, marks[0].loops[0].target.id
+            ex = lambda src, line=ln, **kw: roles.expect(src, defs, line, lv=False, G=pa[0], SEG=pa[1], MASK=MASK, I=Ei, **kw)
+            mask_ok = (marks[0].guards[0] == (ex("G.domain_indices[I] in SEG", marks[0].node.lineno), True) and marks[0].target == ex("MASK[I]", marks[0].node.lineno)
+                       and roles.canon(marks[0].loops[0].iter, defs).replace(" ", "") == ex("range(G.number_of_elements)", marks[0].node.lineno))
+            a0 = defs.alloc(MASK, ln)
+            mask_init = a0 is not None and a0[0] == "expr" and roles.canon(a0[1], defs).replace(" ", "") in (ex("_np.full(G.number_of_elements, False)"), ex("_np.zeros(G.number_of_elements, dtype=bool)"))
+            sel = "G.elements[:, MASK]"
+            used = "list(set((%s).ravel()))" % sel
+            vmaps = [s for s in S if s.op == "=" and isinstance(s.tnode, ast.Subscript) and s.target.endswith("[%s]" % ex(used)) and not s.loops and not s.guards]
+            map_ok = False
+            if len(vmaps) == 1 and isinstance(vmaps[0].tnode.value, ast.Name):
+                VM = vmaps[0].tnode.value.id
+                map_ok = vmaps[0].value == ex("_np.arange(len(%s))" % used)
+                got = [roles.canon(a, defs).replace(" ", "") for a in rets[0].vnode.args]
+                want = [ex("G.vertices[:, %s]" % used), ex("VM[(%s).ravel()].reshape(3, -1)" % sel, VM=VM), ex("G.domain_indices[MASK]")]
+                ok = mask_ok and mask_init and map_ok and got == want
+                why = "mask = (domain index in segments) over all elements: %s (all-False start: %s); old->new vertex map arange over the used vertices: %s; Grid(vertices[:, used], map[elements[:, mask]] in the same row order, domain_indices[mask]): %s" % (
+                    mask_ok, mask_init, map_ok, got == want)
+    r.check(ok, "grid_from_segments", GRID, fn.name, fn.lineno, "segment extraction", why)
